@@ -613,5 +613,163 @@ theorem runLoop_ind {I : Inst α} {ok : Nat → Bool} {c hv : Nat → α} (U : U
           simp only [hp', Bool.not_false, if_true]
           exact herr _ (by simp)
 
+/-! ### Initial state and `runAStar` -/
+
+theorem Hf_true (hv : Nat → α) : Hf true hv = hv := by
+  funext v; simp [Hf]
+
+theorem init_good (I : Inst α) (ok : Nat → Bool) (c H : Nat → α) (source : Nat)
+    (target : Option Nat) :
+    Good I ok c H source target (initState source (H source)).queue
+      (initState source (H source)).g := by
+  have hg : ∀ v x, upd (fun _ => none) source (zero : α) v = some x → v = source ∧ x = 0 := by
+    intro v x h
+    by_cases hv : v = source
+    · subst hv
+      rw [upd_same] at h
+      refine ⟨rfl, ?_⟩
+      have : (zero : α) = x := by simpa using h
+      rw [← this, zero_eq]
+    · rw [upd_other _ _ hv] at h
+      exact absurd h (by simp)
+  refine ⟨⟨?_, ?_, ?_, ?_⟩, ?_, ?_⟩
+  · intro v x h
+    obtain ⟨rfl, rfl⟩ := hg v x h
+    exact ⟨[], rfl, rfl⟩
+  · exact ⟨0, by simp [initState, zero_eq], le_refl _⟩
+  · intro v f h
+    simp only [initState, List.mem_singleton, Prod.mk.injEq] at h
+    obtain ⟨rfl, rfl⟩ := h
+    exact ⟨0, by simp [initState, zero_eq], by simp⟩
+  · simp [initState]
+  · intro u x hx hclosed
+    obtain ⟨rfl, _⟩ := hg u x hx
+    exact absurd (by simp [initState]) (hclosed (H u))
+  · intro t _ x hx
+    obtain ⟨rfl, _⟩ := hg t x hx
+    exact ⟨H t, by simp [initState]⟩
+
+/-- `run_a_star` is the loop from the initial state (when the target is not the source) -/
+theorem runAStar_eq {I : Inst α} {hv : Nat → α} {source : Nat} {target : Option Nat}
+    (hh : target.isSome = true → VertexH I hv) (hts : target ≠ some source) (sched : List Nat) :
+    runAStar I source target sched =
+      runLoop I source target sched (initState source (Hf target.isSome hv source)) := by
+  unfold runAStar
+  have hb : (target == some source) = false := by simpa using hts
+  simp only [hb, Bool.false_eq_true, if_false]
+  cases target with
+  | none => simp [Hf, zero_eq]
+  | some t => simp [Hf, hh rfl source I.init]
+
+/-- `runLoop_ind` transported to `runAStar` -/
+theorem runAStar_ind {I : Inst α} {ok : Nat → Bool} {c hv : Nat → α} (U : UniformCost I ok c)
+    {source : Nat} {target : Option Nat} (hh : target.isSome = true → VertexH I hv)
+    (hts : target ≠ some source) (Post : Except ErrKind (SState α) → Prop)
+    (hnp : ∀ (s : SState α) (t : Nat),
+      Good I ok c (Hf target.isSome hv) source target s.queue s.g → s.queue = [] →
+      target = some t → Post (.error .noPath))
+    (hdone : ∀ s : SState α, Good I ok c (Hf target.isSome hv) source target s.queue s.g →
+      s.queue = [] → target = none → Post (.ok s))
+    (hpop : ∀ (s : SState α) (t : Nat),
+      Good I ok c (Hf target.isSome hv) source target s.queue s.g →
+      target = some t → popOk s.queue t = true →
+      Post (.ok { s with queue := s.queue.filter (fun p => !(p.1 == t)) }))
+    (herr : ∀ k, (k = .noPath → ∃ n i, I.term n i = .error .noPath) → Post (.error k))
+    (sched : List Nat) : Post (runAStar I source target sched) := by
+  rw [runAStar_eq hh hts]
+  exact runLoop_ind U hh Post hnp hdone hpop herr sched _ (init_good I ok c _ source target)
+
+/-! ### Consequences of the invariants at the two kinds of final state -/
+
+section final
+variable {I : Inst α} {ok : Nat → Bool} {c H : Nat → α} {source : Nat} {target : Option Nat}
+  {q : List (Nat × α)} {g : Nat → Option α}
+
+/-- with an empty queue every labelled vertex is closed, so by (K) labels propagate along walks -/
+theorem closed_walk (hgood : Good I ok c H source target [] g) :
+    ∀ (es : List Nat) (u v : Nat) (x : α), g u = some x → Walk I ok u es v →
+      ∃ y, g v = some y ∧ y ≤ x + cost c es
+  | [], u, v, x, hx, hw => by
+    simp only [Walk] at hw
+    subst hw
+    exact ⟨x, hx, by simp [cost]⟩
+  | e :: es, u, v, x, hx, hw => by
+    obtain ⟨hok, hinc, hterm, hrest⟩ := hw
+    subst hterm
+    obtain ⟨y, hy, hyle⟩ := hgood.2.1 _ x hx (fun f hf => by simp at hf) e hinc hok
+    obtain ⟨z, hz, hzle⟩ := closed_walk hgood es _ v y hy hrest
+    refine ⟨z, hz, ?_⟩
+    simp only [cost]
+    linarith
+
+/-- at the moment the target is popped its label is at most `label u + cost` of any valid walk
+from any labelled `u` (A.1: a closed vertex passes the bound on by (K); a queued one has
+`f ≥ f_target`, and `H` is admissible) -/
+theorem popped_walk (hgood : Good I ok c H source target q g) (hH : ∀ v, 0 ≤ H v) {t : Nat}
+    (hadm : Admissible I ok c H t) {ft d : α} (hgt : g t = some d) (hft : ft = d + H t)
+    (hmin : ∀ p ∈ q, ft ≤ p.2) :
+    ∀ (es : List Nat) (u : Nat) (x : α), g u = some x → Walk I ok u es t → d ≤ x + cost c es
+  | es, u, x, hx, hw => by
+    by_cases hq : ∃ f, (u, f) ∈ q
+    · obtain ⟨f, hf⟩ := hq
+      obtain ⟨x', hx', hfx⟩ := hgood.1.qval u f hf
+      rw [hx] at hx'
+      have hxx : x = x' := by simpa using hx'
+      subst hxx
+      have h1 := hmin _ hf
+      have h2 := hadm u es hw
+      have h3 := hH t
+      simp only at h1
+      linarith
+    · match es, hw with
+      | [], hw =>
+        simp only [Walk] at hw
+        subst hw
+        rw [hx] at hgt
+        have : x = d := by simpa using hgt
+        simp [cost, this]
+      | e :: es, hw =>
+        obtain ⟨hok, hinc, hterm, hrest⟩ := hw
+        subst hterm
+        have hclosed : ∀ f, (I.termV e, f) ∉ q := fun f hf => hq ⟨f, hf⟩
+        obtain ⟨y, hy, hyle⟩ := hgood.2.1 _ x hx hclosed e hinc hok
+        have := popped_walk hgood hH hadm hgt hft hmin es _ y hy hrest
+        simp only [cost]
+        linarith
+
+end final
+
+/-! ### C02 core: label optimality -/
+
+/-- **Label optimality** (Dijkstra and A* with an admissible heuristic, closed vertices may be
+re-opened): for every instance in the setting, every source, every target `t ≠ source` and every
+accepted schedule, a successful run labels the target with the least cost of a valid walk
+`source ⇝ t`, and that cost is attained. -/
+theorem label_optimal {I : Inst α} {ok : Nat → Bool} {c hv : Nat → α} (U : Uniform I ok c hv)
+    {source t : Nat} (hts : t ≠ source) (hadm : Admissible I ok c hv t)
+    {sched : List Nat} {s : SState α} (hrun : runAStar I source (some t) sched = .ok s) :
+    ∃ d, s.g t = some d ∧ (∃ es, Walk I ok source es t ∧ cost c es = d) ∧
+      ∀ es, Walk I ok source es t → d ≤ cost c es := by
+  have hts' : (some t : Option Nat) ≠ some source := by simpa using hts
+  refine runAStar_ind U.toUniformCost (hv := hv) (target := some t) (fun _ => U.h_eq) hts'
+    (fun r => ∀ s, r = .ok s → ∃ d, s.g t = some d ∧
+      (∃ es, Walk I ok source es t ∧ cost c es = d) ∧
+      ∀ es, Walk I ok source es t → d ≤ cost c es) ?_ ?_ ?_ ?_ sched s hrun
+  · intro _ _ _ _ _ s h; cases h
+  · intro _ _ _ htar; cases htar
+  · intro s0 t' hgood htar hpop s' hs'
+    cases htar
+    have hs : s' = { s0 with queue := s0.queue.filter (fun p => !(p.1 == t)) } := by
+      injection hs' with h; exact h.symm
+    subst hs
+    rw [show Hf (some t).isSome hv = hv from Hf_true hv] at hgood
+    obtain ⟨ft, hmem, hmin⟩ := popOk_spec hpop
+    obtain ⟨d, hd, hft⟩ := hgood.1.qval t ft hmem
+    refine ⟨d, hd, hgood.1.sound _ _ hd, fun es hw => ?_⟩
+    have h0 := hgood.1.src_zero U.cost_pos
+    have := popped_walk hgood U.h_nonneg hadm hd hft hmin es source 0 h0 hw
+    simpa using this
+  · intro _ _ s h; cases h
+
 end SearchOpt
 end Compass
